@@ -175,6 +175,7 @@ class Chain:
         self.pairs = []  # (original term, fresh variable or constant)
         self.facts = []  # proven facts restated on the fresh variables
         self.prove = prove
+        self.nonzero = {}  # divisor id -> proven non-zero
 
     def sub(self, t):
         return z3.substitute(t, *self.pairs) if self.pairs else t
@@ -203,18 +204,60 @@ class Chain:
         top = max(ks) if ks else -1
         return [c for c in constraints if all(k <= top for k in self._aux(c))]
 
+    def _attempt(self, claim, cons, label, timeout):
+        """claim under cons: first with the divisions cleared (divisors proven non-zero), then as it stands"""
+        from engine import smt
+
+        cd = smt.clear_denominators(claim)
+        if cd is not None:
+            c2, divisors = cd
+            okd = True
+            for d in divisors:
+                key = d.get_id()
+                if key not in self.nonzero:
+                    v, _ = self.prove(d != 0, cons, label + " [divisor non-zero]", min(timeout, 20))
+                    self.nonzero[key] = v == "unsat"
+                okd &= self.nonzero[key]
+            if okd:
+                v, m = self.prove(z3.simplify(c2, som=True), cons, label + " [divisions cleared]", timeout)
+                if v == "unsat":
+                    return v, None
+        return self.prove(claim, cons, label, timeout)
+
+    def minimal(self, claim, constraints):
+        """conjuncts that speak only about auxiliaries of the claim itself"""
+        ks = self._aux(claim)
+        out = []
+        for c in constraints:
+            for part in (c.children() if z3.is_and(c) else [c]):
+                if self._aux(part) <= ks:
+                    out.append(part)
+        return out
+
     def decide(self, claim, label, timeout=60):
-        """-> verdict, model; attempts: generalised + sliced, original + sliced, original with every constraint"""
+        """-> verdict, model; attempts: minimal slice, generalised + sliced, original + sliced, original with every constraint"""
+        if not z3.is_eq(claim):
+            v, m = self.prove(claim, self.minimal(claim, self.base), label + " [minimal]", min(timeout, 10))
+            if v == "unsat":
+                return v, None
+        weak = None
         if self.pairs:
             g = self.sub(claim)
             gb = self.sliced(g, [self.sub(c) for c in self.base]) + self.facts
-            v, m = self.prove(g, gb, label + " [generalised]", timeout)
+            v, m = self._attempt(g, gb, label + " [generalised]", timeout)
             if v == "unsat":
                 return v, None
-        v, m = self.prove(claim, self.sliced(claim, self.base), label + " [sliced]", timeout)
+            if v == "sat":
+                weak = m
+        v, m = self._attempt(claim, self.sliced(claim, self.base), label + " [sliced]", timeout)
         if v == "unsat":
             return v, None
-        return self.prove(claim, self.base, label, timeout)
+        if v == "sat":
+            weak = weak or m
+        v, m = self.prove(claim, self.base, label, timeout)
+        if v == "unknown" and weak is not None:
+            return "sat?", weak  # refuted only under an over-approximation: a candidate, to be settled by the replay
+        return v, m
 
     def hide(self, terms, name):
         """terms: dict key -> z3 term (already decided facts are added by the caller through .fact)"""
@@ -242,6 +285,28 @@ class Chain:
 BLOCK = ((0, 0), (0, 1), (1, 0), (1, 1))
 
 
+def _unit_by_radicand(V, defs):
+    """V = N / s entrywise with s = sqrt(R): <V,V> = 1 is the division-free identity sum N_ij^2 = R (s > 0)"""
+    from engine import smt
+
+    memo, tot, den = {}, None, None
+    for i in range(NB):
+        for j in range(NB):
+            n, d = smt.numden(V[i, j], memo)
+            if z3.is_rational_value(z3.simplify(n)) and z3.simplify(n).numerator_as_long() == 0:
+                continue
+            if len(d) != 1:
+                return None
+            (t, p), = d.values()
+            if p != 1 or not z3.is_const(t) or t.decl().name() not in defs or (den is not None and not den.eq(t)):
+                return None
+            den = t
+            tot = n * n if tot is None else tot + n * n
+    if den is None:
+        return None
+    return tot == defs[den.decl().name()]
+
+
 def decide_kernel(rec, B, sign, base, prove, report, timeout=60):
     """decide the claims that characterise the published rank-m update on one explored execution.
     report(label, verdict, model) is called once per claim."""
@@ -257,6 +322,12 @@ def decide_kernel(rec, B, sign, base, prove, report, timeout=60):
                     if a.decl().name().startswith("sqrt!"):
                         norms[a.decl().name()] = a
     ch = Chain(list(base) + [a > 0 for a in norms.values()], prove)
+    defs = {}  # sqrt auxiliary -> radicand as the program built it
+    for c in base:
+        if z3.is_and(c) and c.num_args() == 2 and z3.is_eq(c.arg(1)):
+            l = c.arg(1).arg(0)
+            if z3.is_app(l) and l.decl().kind() == z3.Z3_OP_MUL and l.num_args() == 2 and l.arg(0).eq(l.arg(1)) and z3.is_const(l.arg(0)):
+                defs[l.arg(0).decl().name()] = c.arg(1).arg(1)
     Vh = {}
     for q in range(m):
         for b in range(B):
@@ -274,7 +345,15 @@ def decide_kernel(rec, B, sign, base, prove, report, timeout=60):
                     if (i, j) not in BLOCK:
                         ok &= dec(V[i, j] == 0, "entry (%d,%d) outside the molecule's block is zero" % (i, j))
             ok &= dec(V[0, 1] == V[1, 0], "symmetric")
-            ok &= dec(frob(V, V) == 1, "unit Frobenius norm")
+            Vs = np.empty((NB, NB), dtype=object)
+            for i in range(NB):
+                for j in range(NB):
+                    Vs[i, j] = ch.sub(V[i, j])
+            un = _unit_by_radicand(Vs, {k_: ch.sub(x_) for k_, x_ in defs.items()})
+            if un is not None and prove(z3.simplify(un, som=True), ch.facts, pre + "unit Frobenius norm [generalised: sum of squared numerators = radicand of the normaliser]", timeout)[0] == "unsat":
+                report(pre + "unit Frobenius norm", "unsat", None)
+            else:
+                ok &= dec(frob(V, V) == 1, "unit Frobenius norm")
             for p_ in range(q):
                 ok &= dec(frob(V, rec["V"][p_][b]) == 0, "orthogonal to Krylov vector %d" % p_)
             if q == 0:
@@ -299,7 +378,51 @@ def decide_kernel(rec, B, sign, base, prove, report, timeout=60):
             for p_ in range(q):
                 if (p_, b) in Vh:
                     ch.fact(g(f, Vh[(p_, b)]) == 0)
+            # the response to this vector is hidden as well (symmetric, confined to the block: both are facts about the model)
+            A = rec["LV"][q][b]
+            if all(dec(A[i, j] == 0, "response entry (%d,%d) outside the block is zero" % (i, j)) for i in range(NB) for j in range(NB) if (i, j) not in BLOCK) and dec(A[0, 1] == A[1, 0], "response symmetric"):
+                fa = ch.hide({"%d%d" % (i, j): A[i, j] for i in range(NB) for j in range(NB)}, "a%d_%d" % (q, b))
+                for i in range(NB):
+                    for j in range(NB):
+                        if (i, j) not in BLOCK and not z3.is_rational_value(fa["%d%d" % (i, j)]):
+                            ch.fact(fa["%d%d" % (i, j)] == 0)
+                ch.fact(fa["01"] == fa["10"])
     for lab, c in kernel_claims(rec, B, sign):
+        if isinstance(c, tuple):  # relative residual: (error term, |D-P|^2, |residual|^2)
+            e, rr, res2 = c
+            sq = [a for a in aux_consts(e) if a.decl().name().startswith("sqrt!")]
+            v = "unknown"
+            if len(sq) == 2:
+                orders = (sq, sq[::-1])
+                if z3.is_app(e) and e.decl().kind() == z3.Z3_OP_DIV and any(e.arg(0).eq(a) for a in sq) and any(e.arg(1).eq(a) for a in sq):
+                    orders = ((e.arg(0), e.arg(1)),)
+                for sa, sb in orders:
+                    if all(ch.decide(x, lab + " [%s]" % w, timeout)[0] == "unsat" for w, x in (("quotient of two norms", e * sb == sa), ("denominator is |D-P|", sb * sb == rr), ("numerator is the residual norm", sa * sa == res2))):
+                        v = "unsat"
+                        break
+            mod = None
+            if v != "unsat":
+                v, mod = ch.decide(e * e * rr == res2, lab, timeout)
+            report(lab, v, mod)
+            continue
+        if "update[" in lab:
+            # both sides are linear in the unknowns of the last solve: decide the identity coefficient by coefficient
+            # (stronger than needed, and free of the solve constraints); a failure here is only a candidate
+            X = [u for u in rec["solves"][-1][3].reshape(-1)]
+            verdicts = []
+            for pick in [None] + list(range(len(X))):
+                pairs = [(u, z3.RealVal(1 if k_ == pick else 0)) for k_, u in enumerate(X)]
+                cu = z3.substitute(c, *pairs)
+                v, mod = ch.decide(cu, lab + " [coefficient of unknown %s]" % ("-" if pick is None else pick), timeout)
+                verdicts.append((v, mod))
+                if v != "unsat":
+                    break
+            if all(v == "unsat" for v, _ in verdicts):
+                report(lab, "unsat", None)
+                continue
+            if verdicts[-1][0] in ("sat", "sat?"):
+                report(lab, "sat?", verdicts[-1][1])
+                continue
         v, mod = ch.decide(c, lab, timeout)
         report(lab, v, mod)
 
@@ -324,7 +447,10 @@ def kernel_claims(rec, B, sign):
         kind, A, Bm, X = rec["solves"][-1]
         k = A.shape[-1]
         out.append(("mol %d: the final solve uses all %d Krylov vectors" % (b, m), z3.BoolVal(k == m)))
-        x = [X[b, q, 0] for q in range(k)]
+        if kind == "inverse":  # x = A^-1 (W^T (D-P))
+            x = [sum(X[b, q, j] * frob(W[j], r[b]) for j in range(k)) for q in range(k)]
+        else:
+            x = [X[b, q, 0] for q in range(k)]
         for i in range(NB):
             for j in range(NB):
                 spec = sum(x[q] * V[q][i, j] for q in range(k))
@@ -334,6 +460,211 @@ def kernel_claims(rec, B, sign):
             k = A.shape[-1]
             res = sum(W[q] * X[b, q, 0] for q in range(k)) - r[b]
             e = rec["Err"].reshape(-1)[b]
-            out.append(("mol %d: Error^2 |D-P|^2 = |sum x_q W_q - (D-P)|^2 (relative residual of the rank-%d model)" % (b, k), e * e * frob(r[b], r[b]) == frob(res, res)))
+            out.append(("mol %d: Error^2 |D-P|^2 = |sum x_q W_q - (D-P)|^2 (relative residual of the rank-%d model)" % (b, k), (e, frob(r[b], r[b]), frob(res, res))))
             out.append(("mol %d: Error >= 0" % b, e >= 0))
     return out
+
+
+def run_ksa(rank, B, thr=0.0, float_env=None):
+    """one outer iteration of the real KSA SCF driver scf_forward3 (iteration cap 1) with the same linear-response model;
+    the returned density is P - sum_q x_q V_q with P = 0"""
+    from seqm.seqm_functions import scf_loop as SL
+
+    rec = {"V": [], "LV": []}
+    if float_env is None:
+        r, _ = sym_block("r", B)
+        Ls, L = lin_map(B)
+        wrap = lambda a: SymTensor(a.copy())
+        P0 = np.empty((B, NB, NB), dtype=object)
+        P0[...] = S.ZERO
+        P0 = SymTensor(P0)
+    else:
+        ev = lambda n: float(float_env.get(n, 0.0))
+        r = torch.zeros(B, NB, NB, dtype=torch.float64)
+        Lf = torch.zeros(B, 3, 3, dtype=torch.float64)
+        for b in range(B):
+            x, y, z = (ev("r%d_%s" % (b, c)) for c in "abc")
+            r[b, 0, 0], r[b, 0, 1], r[b, 1, 0], r[b, 1, 1] = x, y, y, z
+            for i in range(3):
+                for j in range(3):
+                    Lf[b, i, j] = ev("L%d_%d%d" % (b, i, j))
+
+        def L(X):
+            out = torch.zeros_like(X)
+            for b in range(X.shape[0]):
+                c = torch.stack((X[b, 0, 0], (X[b, 0, 1] + X[b, 1, 0]) / 2, X[b, 1, 1]))
+                y = Lf[b] @ c
+                out[b, 0, 0], out[b, 0, 1], out[b, 1, 0], out[b, 1, 1] = y[0], y[1], y[1], y[2]
+            return out
+
+        wrap = lambda a: a.clone()
+        P0 = torch.zeros(B, NB, NB, dtype=torch.float64)
+
+    def fermi(F, T, nocc, nHeavy, nHydro, kB, scf_backward=0):
+        one = torch.ones(B, NB, dtype=torch.float64)
+        return (wrap(r), torch.zeros(B, dtype=torch.float64), torch.eye(NB, dtype=torch.float64).repeat(B, 1, 1), torch.arange(NB, dtype=torch.float64).repeat(B, 1), 0.5 * one, torch.zeros(B, 1, dtype=torch.float64), one)
+
+    def g(nmol, molsize, dD, *a):
+        rec["V"].append(S.to_obj(dD).copy() if float_env is None else dD.clone())
+        return dD
+
+    def canon(FO1, *a):
+        out = L(FO1)
+        rec["LV"].append(out.copy() if float_env is None else out.clone())
+        return wrap(out)
+
+    names = ("fock_restricted", "Fermi_Q", "Canon_DM_PRT", "G", "elec_energy", "reshape_Hcore", "MAX_ITER")
+    saved = {k: getattr(SL, k) for k in names}
+    zF = torch.zeros(B, NB, NB, dtype=torch.float64)
+    SL.fock_restricted = lambda *a: zF.clone()
+    SL.Fermi_Q, SL.G, SL.Canon_DM_PRT = fermi, g, canon
+    SL.elec_energy = lambda P, F, H: torch.zeros(P.shape[0], dtype=torch.float64)
+    SL.reshape_Hcore = lambda M, nmol, molsize, method: zF.clone()
+    SL.MAX_ITER = 1
+    one = torch.ones(B, dtype=torch.int64)
+    args = (zF.clone(), None, None, None, None, None, None, None, 0 * one, one, 0 * one, one, B, 1, None, None, None, None, P0, torch.tensor(1e-6, dtype=torch.float64), "AM1", None, None, None, None, None, None, {"max_rank": rank, "err_threshold": thr, "T_el": 1500.0})
+    try:
+        if float_env is None:
+            with symbolic_factories(bool_symbolic=True):
+                P, nc = SL.scf_forward3(*args, backward=False, verbose=False)
+        else:
+            P, nc = SL.scf_forward3(*args, backward=False, verbose=False)
+    finally:
+        for k, v in saved.items():
+            setattr(SL, k, v)
+    rec.update(dP2=S.to_obj(P).copy() if float_env is None else P, Err=None, r=r, solves=list(S.ST.solves) if float_env is None else None, side=list(S.ST.side_raw) if float_env is None else None)
+    return rec
+
+
+# ---------------------------------------------------------------------------------------------------------------------
+def float_failures(which, rank, B, env, tol=1e-8):
+    """replay on the real code in float64: the same execution with concrete r, L; returns the list of claims that fail"""
+    rec = (run_xl if which == "xl" else run_ksa)(rank, B, 0.0, float_env=env)
+    bad = []
+    m = len(rec["V"])
+    fr = lambda x, y: float((x * y).sum())
+    for b in range(B):
+        V = [v[b] for v in rec["V"]]
+        W = [a[b] - v[b] for a, v in zip(rec["LV"], rec["V"])]
+        r = rec["r"][b]
+        for q in range(m):
+            off = V[q].clone()
+            off[:2, :2] = 0
+            if float(off.abs().max()) > tol or abs(float(V[q][0, 1] - V[q][1, 0])) > tol:
+                bad.append("mol %d: Krylov vector %d is not a symmetric matrix confined to the molecule's block" % (b, q))
+            for p in range(q + 1):
+                if abs(fr(V[q], V[p]) - (1.0 if p == q else 0.0)) > tol:
+                    bad.append("mol %d: <V%d,V%d> = %.3e" % (b, q, p, fr(V[q], V[p])))
+        c0 = fr(V[0], r) / (fr(r, r) ** 0.5)
+        if abs(c0 - 1.0) > tol:
+            bad.append("mol %d: first Krylov vector is not (D-P)/|D-P| (cosine %.6f)" % (b, c0))
+        if m >= 2:
+            basis = torch.stack([V[0].reshape(-1), W[0].reshape(-1)], dim=1)
+            sol = torch.linalg.lstsq(basis, V[1].reshape(-1, 1)).solution
+            if float((basis @ sol - V[1].reshape(-1, 1)).norm()) > tol:
+                bad.append("mol %d: second Krylov vector leaves span{V0, W0}" % b)
+        Wm = torch.stack([w.reshape(-1) for w in W], dim=1)
+        Vm = torch.stack([v.reshape(-1) for v in V], dim=1)
+        x = torch.linalg.solve(Wm.T @ Wm, Wm.T @ r.reshape(-1, 1))
+        y = (Vm @ x).reshape(NB, NB)
+        got = rec["dP2"][b]
+        if float((got + y).abs().max()) > tol * max(1.0, float(y.abs().max())):
+            bad.append("mol %d: returned update differs from -V (W^T W)^-1 W^T (D-P) by %.3e (rank %d)" % (b, float((got + y).abs().max()), m))
+        if rec.get("Err") is not None:
+            e_spec = float((Wm @ x - r.reshape(-1, 1)).norm() / r.norm())
+            if abs(float(rec["Err"].reshape(-1)[b]) - e_spec) > 1e-7:
+                bad.append("mol %d: reported relative residual %.3e, the rank-%d model has %.3e" % (b, float(rec["Err"].reshape(-1)[b]), m, e_spec))
+    return bad
+
+
+REPLAY_ENVS = (
+    {"r": (0.3, -0.2, 0.5), "L": ((0.2, 0.1, -0.3), (0.05, -0.4, 0.2), (0.3, 0.2, 0.1))},
+    {"r": (-1.0, 0.4, 0.25), "L": ((-0.3, 0.6, 0.1), (0.2, 0.1, -0.5), (-0.1, 0.3, 0.45))},
+    {"r": (0.0, 1.0, 0.0), "L": ((0.0, 0.5, 0.0), (0.25, 0.0, -0.25), (0.0, 0.75, 0.5))},
+)
+
+
+def _env_of(spec, B, shift=0):
+    env = {}
+    for b in range(B):
+        s_ = REPLAY_ENVS[(shift + b) % len(REPLAY_ENVS)] if spec is None else spec
+        for c, v in zip("abc", s_["r"]):
+            env["r%d_%s" % (b, c)] = v
+        for i in range(3):
+            for j in range(3):
+                env["L%d_%d%d" % (b, i, j)] = s_["L"][i][j]
+    return env
+
+
+def replay_kernel(which, rank, B, env=None):
+    bad = []
+    envs = ([dict(env)] if env else []) + [_env_of(None, B, k) for k in range(len(REPLAY_ENVS))]
+    for e in envs:
+        try:
+            f = float_failures(which, rank, B, e)
+        except Exception as ex:  # noqa
+            f = ["the real code raised %s: %s" % (type(ex).__name__, str(ex)[:120])]
+        if f:
+            print("   inputs:", {k: round(v, 6) for k, v in sorted(e.items())})
+            for x in f[:6]:
+                print("     ", x)
+            bad += f
+            break
+    return bool(bad)
+
+
+class _Found(Exception):
+    pass
+
+
+def obligation_body(ob, which, configs, timeout):
+    """configs: [(rank, B)]"""
+    from engine import smt
+    from .common import HarnessError, expect_refuted
+
+    from engine.explorer import Explorer
+
+    sign = -1
+    prove = lambda c, a, lab, to: smt.prove(c, a, lab, "nra", to, with_side=False)
+    for rank, B in configs:
+        nz = [z3.Or(*[z3.Real("r%d_%s" % (b, c)) != 0 for c in "abc"]) for b in range(B)]
+        ex = Explorer(assumptions=nz, piecewise="ite", kind="nra", max_paths=40, timeout_s=10)
+        ex.unknown_as_feasible = True
+        res = ex.run(lambda: (run_xl if which == "xl" else run_ksa)(rank, B))
+        ob.paths += ex.paths
+        ranks_seen = sorted(len(r_["V"]) for _, _, r_ in res)
+        ob.require(ranks_seen == list(range(1, rank + 1)), "max_rank %d: expected one execution per rank reached (early exit when the rank-m model is exact), got %s" % (rank, ranks_seen))
+        for pc, _, rec in sorted(res, key=lambda t: len(t[2]["V"])):
+            m = len(rec["V"])
+
+            def report(lab, v, mod):
+                full = "%s max_rank %d, batch %d, rank reached %d: %s" % (which, rank, B, m, lab)
+                if v not in ("sat", "sat?"):
+                    ob.verdict(v, full)
+                    return
+                env = {}
+                if mod is not None and v == "sat":
+                    for b in range(B):
+                        for n in ["r%d_%s" % (b, c) for c in "abc"] + ["L%d_%d%d" % (b, i, j) for i in range(3) for j in range(3)]:
+                            env[n] = float(smt.model_value(mod, z3.Real(n)))
+                    if any(all(env["r%d_%s" % (b, c)] == 0 for c in "abc") for b in range(B)):
+                        env = {}
+                print("counterexample candidate:", full)
+                if replay_kernel(which, rank, B, env or None):
+                    ob.violation("%s: %s" % ("EnergyXL.forward (rank-m kernel)" if which == "xl" else "scf_forward3 (Krylov update)", full), {"module": "harness.krylov", "func": "replay_kernel", "args": {"which": which, "rank": rank, "B": B, "env": env or None}})
+                    raise _Found()
+                if v == "sat?":
+                    ob.inconclusive(full + " (refuted only under the generalisation, not reproduced on the real code)")
+                    return
+                raise HarnessError("kernel counterexample did not reproduce on the real code: %s" % full)
+
+            try:
+                decide_kernel(rec, B, sign, nz + list(pc) + list(rec["side"]), prove, report, timeout)
+            except _Found:
+                return
+            if m == 1 and B == 1:
+                # reachability twin: the update with the opposite sign must be refuted on the same execution
+                lab, c = [x_ for x_ in kernel_claims(rec, B, -sign) if "update[0,0]" in x_[0]][0]
+                v, _ = smt.prove(c, nz + list(pc) + list(rec["side"]), "twin: " + lab, "nra", 60, with_side=False)
+                if v != "sat":
+                    raise HarnessError("sensitivity twin (update with the opposite sign) was not refuted (%s)" % v)
